@@ -235,22 +235,61 @@ void run_stage_case(const Case& c, Result& r)
         return;
     }
     // entries at the "infinite" sentinel (unreachable pairs) must be bitwise equal; the others agree relative to the largest finite one
-    double scale = 1e-300, dev = 0;
+    double scale = 1e-300;
     for (int i = 0; i < R1.size(); ++i)
         if (std::fabs(R1.data()[i]) < 1e300)
             scale = std::max(scale, std::fabs(R1.data()[i]));
-    for (int i = 0; i < R1.size(); ++i)
-    {
-        double a = R1.data()[i], b = Rp.data()[i];
-        if (std::fabs(a) >= 1e300 || std::fabs(b) >= 1e300 || !std::isfinite(a) || !std::isfinite(b))
+    auto deviation = [&](const Mat& Rq) {
+        double dv = 0;
+        if (Rq.rows() != R1.rows() || Rq.cols() != R1.cols())
+            return 1.0;
+        for (int i = 0; i < R1.size(); ++i)
         {
-            if (!(a == b) && !(std::isnan(a) && std::isnan(b)))
-                dev = std::max(dev, 1.0);
+            double a = R1.data()[i], b = Rq.data()[i];
+            if (std::fabs(a) >= 1e300 || std::fabs(b) >= 1e300 || !std::isfinite(a) || !std::isfinite(b))
+            {
+                if (!(a == b) && !(std::isnan(a) && std::isnan(b)))
+                    dv = std::max(dv, 1.0);
+            }
+            else
+                dv = std::max(dv, std::fabs(a - b) / scale);
         }
-        else
-            dev = std::max(dev, std::fabs(a - b) / scale);
-    }
+        return dv;
+    };
+    double dev = deviation(Rp);
     r.maxnum("dev", dev);
+    if (c.i("nested", 0))
+    {
+        // The stage called from inside the application's own parallel region, by one of its two threads (the other one idles:
+        // concurrent callers would be a re-entrancy claim the property does not make, and the debug-only allocation guard
+        // RESTRICT_ALLOC is a process-wide flag). Nested parallelism is off by default, so every region inside the library
+        // runs with a team of ONE thread while omp_get_max_threads() still reports `threads`: the team is smaller than the bound.
+        omp_set_num_threads(threads);
+        Mat Ra, Rb;
+        Recorder reca(N), recb(N);
+        reca.delays = recb.delays = true;
+        reca.delay_seed = rec.delay_seed + 1;
+        recb.delay_seed = rec.delay_seed + 2;
+        int inner_bound[2] = {0, 0};
+#pragma omp parallel num_threads(2)
+        {
+            int me = omp_get_thread_num();
+            inner_bound[me & 1] = omp_get_max_threads();
+            if (me == 1 || omp_get_num_threads() == 1)
+                Ra = run_stage(stage, c, X, idx, nbK, nbD, lm, reca);
+        }
+        (void)recb;
+        omp_set_num_threads(1);
+        double dn = std::max(deviation(Ra), Rb.size() ? deviation(Rb) : 0.0);
+        r.maxnum("dev_nested", dn);
+        r.num["nested_thread_bound"] = inner_bound[0];
+        r.addnum("nested_calls", Rb.size() ? 2 : 1);
+        if (!(dn <= 1e-10))
+            r.violation(sf("%s:%s:result-depends-on-team-size", stage.c_str(), BACKEND),
+                        sf("called from inside a parallel region of the application (inner team of 1, thread bound %d): max relative entry difference "
+                           "%.3g from the single-threaded result",
+                           inner_bound[0], dn));
+    }
     if (!(dev <= 1e-10))
         r.violation(sf("%s:%s:result-depends-on-thread-count", stage.c_str(), BACKEND),
                     sf("%d threads vs 1 thread: max relative entry difference %.3g", threads, dev));
